@@ -195,10 +195,10 @@ func (r *report) finish(o *runOpts) int {
 		suffix := " no-failing-input-found"
 		if ob.Result.Status == "sat" {
 			rep["model"] = truncate(ob.Result.Output, 6000)
-			if ok, info := tryReplay(o, ob, rep); ok {
-				suffix = ""
-				rep["replayed_on_real_code"] = info
-			}
+		}
+		if ok, info := tryReplay(o, ob, rep); ok {
+			suffix = ""
+			rep["replayed_on_real_code"] = info
 		}
 		os.WriteFile(strings.TrimSuffix(path, ".json")+".smt2", []byte(ob.query), 0o644)
 		b, _ := json.MarshalIndent(rep, "", " ")
